@@ -499,11 +499,50 @@ def orbit_source(rep, M, rid):
 
 
 # ----------------------------------------------------------------------------- memo coherence with set_system()
+OBSERVABLES = {
+    "C04": ("get_material_id", "get_space_group_number", "get_wyckoff_sets_conventional"),
+    "C05": ("get_conventional_system", "get_space_group_number"),
+    "C06": ("get_material_id", "get_space_group_number", "get_hall_number", "get_point_group", "get_bravais_lattice", "get_crystal_system",
+            "get_wyckoff_sets_conventional", "get_has_free_wyckoff_parameters", "get_conventional_system"),
+    "C07": ("get_wyckoff_sets_conventional", "get_conventional_system", "get_wyckoff_letters_conventional", "get_equivalent_atoms_conventional", "get_space_group_number"),
+    "C08": ("get_wyckoff_sets_conventional", "get_has_free_wyckoff_parameters"),
+    "C11": ("get_conventional_system", "get_material_id", "get_space_group_number", "get_wyckoff_sets_conventional"),
+    "C12": ("get_primitive_system", "get_conventional_system", "get_wyckoff_letters_original", "get_wyckoff_letters_primitive", "get_wyckoff_letters_conventional",
+            "get_equivalent_atoms_original", "get_equivalent_atoms_primitive", "get_equivalent_atoms_conventional", "get_space_group_number"),
+    "C14": ("get_crystal_system", "get_bravais_lattice", "get_point_group", "get_wyckoff_sets_conventional", "get_conventional_system"),
+    "C15": ("get_is_chiral", "get_space_group_number", "get_hall_number"),
+}
+
+
+def _reads_of(M, meth, name, seen=None):
+    """self attributes read by SymmetryAnalyzer.<name>, through self.<method>() calls"""
+    seen = seen if seen is not None else set()
+    if name in seen or name not in meth:
+        return set()
+    seen.add(name)
+    out = set()
+    for x in ast.walk(meth[name]):
+        if isinstance(x, ast.Attribute) and isinstance(x.value, ast.Name) and x.value.id == "self":
+            if x.attr in meth:
+                out |= _reads_of(M, meth, x.attr, seen)
+            else:
+                out.add(x.attr)
+    return out
+
+
 def reset_covers_caches(rep, M, rid):
-    """every memoised result of SymmetryAnalyzer is dropped by reset(), and set_system() calls reset():
-    otherwise an analyzer reused through set_system() answers for the previous structure"""
+    """every memoised result of SymmetryAnalyzer *that the observed getters of this property read* is dropped by reset(), and set_system()
+    calls reset(): otherwise an analyzer reused through set_system() answers for the previous structure"""
     cls = M.cls(SA)
     meth = {f.name: f for f in cls.body if isinstance(f, ast.FunctionDef)}
+    pid = getattr(rep, "pid", None)
+    obs = OBSERVABLES.get(pid)
+    relevant = None
+    if obs:
+        missing = [o for o in obs if o not in meth]
+        if missing:
+            raise AnalysisError(f"SymmetryAnalyzer getters {missing} (observed for {pid}) missing")
+        relevant = set().union(*[_reads_of(M, meth, o) for o in obs])
     if "reset" not in meth or "set_system" not in meth:
         raise AnalysisError("SymmetryAnalyzer.reset / set_system missing")
     lifecycle = {"__init__", "reset", "set_system"}
@@ -533,6 +572,8 @@ def reset_covers_caches(rep, M, rid):
     for a in memos:
         if a in reset_set:
             rep.ok(rid, f"state self.{a} (written in {assigned[a]}) is re-initialised by reset()")
+        elif relevant is not None and a not in relevant:
+            rep.note(f"self.{a} (written in {assigned[a]}) is not re-initialised by reset(), but none of the getters observed for {pid} reads it")
         else:
             rep.violation(rid, f"SymmetryAnalyzer memo self.{a}", f"written in {assigned[a]} and kept on the analyzer, but reset() does not re-initialise it: "
                           "after set_system(other) the analyzer answers for the previous structure", M.where(SA + "." + assigned[a]))
@@ -964,13 +1005,17 @@ def tables_read_only(rep, M, rid):
 
 
 # ----------------------------------------------------------------------------- no result is kept in module-level state
-def module_state(rep, M, rid, prefix="matid."):
+GEOMETRY_SIDE = ("matid.geometry", "matid.clustering", "matid.core", "matid.classification", "matid.utils", "matid.data.constants", "matid.data.element_data")
+SYMMETRY_SIDE = ("matid.symmetry", "matid.geometry", "matid.data", "matid.utils", "matid.core.system")
+
+
+def module_state(rep, M, rid, prefixes=SYMMETRY_SIDE):
     """no function writes into a module-level object (a dict / list / array defined at import time): such a memo or buffer makes a result
     depend on what the process analysed before, and nothing invalidates it when the inputs change"""
     n_mod = n_fn = 0
     hits = []
     for mname, tree in M.mods.items():
-        if not mname.startswith(prefix.rstrip(".")):
+        if not any(mname == pf or mname.startswith(pf + ".") for pf in prefixes):
             continue
         n_mod += 1
         top = set()
